@@ -1165,6 +1165,7 @@ def structure_models():
         "type-named-like-writer-base": "PkWriterBase: !record\n  fields:\n    x: int\n" + rec(("x", "PkWriterBase")) + pk,
         "type-named-like-binary-writer": "BinaryPkWriter: !record\n  fields:\n    x: int\n" + rec(("x", "BinaryPkWriter")) + pk,
         "type-named-like-serializer": "RkSerializer: !record\n  fields:\n    x: int\n" + rec(("x", "RkSerializer")) + pk,
+        "containers-of-optionals": "Rk: !record\n  fields:\n    samples: !vector {items: [null, int]}\n    short: int?*\n    fixed: int?*3\n    m: !map {keys: string, values: [null, int]}\n" + pk,
         "fields-equal-in-snake-case": rec(("fooBar", "int"), ("fooBAR", "int")) + pk,
         "enum-values-equal-in-upper-snake-case": "Ek: !enum\n  values: [fooBar, fooBAR]\n" + rec(("e", "Ek")) + pk,
         "steps-a-and-aImpl": rec(("x", "int")) + pk + "    aImpl: int\n",
